@@ -258,6 +258,7 @@ type Exec struct {
 	unwinds  []Event
 	blocks   []Event // would-block events
 	spawns   []string
+	pools    map[int][]Value // sync.Pool contents by pool object
 	spawned  []spawnRec // goroutines started by `go` (not scheduled; vsRunSpawned runs one until it returns or blocks)
 	nondets  []NondetVar
 	observes []NondetVar
